@@ -68,7 +68,7 @@ class Family:
             for mode in self.modes:
                 cfg = 'mc_%s_%s.cfg' % (prog, mode)
                 open(os.path.join(self.w, cfg), 'w').write(mc_cfg(mode, maxreq, nflags, self.mc_invs, cap=pj.get('cachesize', 0)))
-                r = core.tlc(self.w, 'ViseMC', cfg, workers=core.NCPU, timeout=3000, coverage=self.thorough,
+                r = core.tlc(self.w, 'ViseMC', cfg, workers=core.NCPU, timeout=3000,
                              env={'VERIF_PROG': prog_path(prog)})
                 core.require_tlc_ok(r, 'ViseMC %s/%s' % (prog, mode))
                 if r.violated:
